@@ -107,6 +107,7 @@ type grant struct {
 	ttl    int
 	last   int // logical time of issue / last admitted use
 	closed bool
+	unsure bool // issued while a Close of the same profile was in flight: live or closed, settled by the first presentation
 	dead   bool // known expired
 	rs, re time.Time
 }
@@ -679,136 +680,166 @@ func touchedData(calls []hx.Call) []string {
 	return out
 }
 
-// runOnce executes the history; ok=false when a timing bound was not met (verdict would depend on a race).
-func runOnce(kind string, ops []Op) (*hx.Record, bool) {
-	w := newWorld()
-	defer w.cleanup()
+// seqRun executes operations one at a time on a fresh world and applies the direct oracle to each.
+type seqRun struct {
+	w          *world
+	rec        *hx.Record
+	obs        []Obs
+	prev       Obs
+	classParts []string
+	nontrivial bool
+	dist       []string
+	n          int
+}
 
-	obs := make([]Obs, 0, len(ops))
-	rec := &hx.Record{Kind: kind, Case: map[string]interface{}{"ops": ops}, Oracle: "ok"}
+func newSeqRun(kind string) *seqRun {
+	return &seqRun{w: newWorld(), rec: &hx.Record{Kind: kind, Oracle: "ok"}, prev: Obs{Rows: [][3]int{}, Keys: []int{}},
+		classParts: []string{}}
+}
 
-	fail := func(sig, detail string) {
-		if rec.Oracle == "ok" {
-			rec.Oracle, rec.Sig, rec.Detail = "fail", sig, detail
+func (s *seqRun) fail(sig, detail string) {
+	if s.rec.Oracle == "ok" {
+		s.rec.Oracle, s.rec.Sig, s.rec.Detail = "fail", sig, detail
+	}
+}
+
+// do runs one op; false when a timing bound was not met (the verdict would depend on a race).
+func (s *seqRun) do(op Op) bool {
+	// the reference verdict BEFORE the op: is the presented token a live token of this instance's own profile?
+	why := ""
+
+	if isTokenOp(op.Kind) && op.I < len(s.w.iuser) {
+		u := s.w.iuser[op.I]
+
+		switch {
+		case op.Tok < 0 || op.Tok >= len(s.w.grants):
+			why = "never-issued"
+		case s.w.grants[op.Tok].user != u:
+			why = "foreign"
+			g := s.w.grants[op.Tok]
+
+			if g.closed {
+				why = "foreign-closed"
+			} else if s.w.now-g.last > g.ttl {
+				why = "foreign-expired"
+			}
+		case s.w.grants[op.Tok].unsure:
+			why = ""
+		case s.w.grants[op.Tok].closed:
+			why = "closed"
+		case s.w.now-s.w.grants[op.Tok].last > s.w.grants[op.Tok].ttl:
+			why = "expired"
 		}
 	}
 
-	prev := Obs{Rows: [][3]int{}, Keys: []int{}}
-	classParts := []string{}
-	nontrivial := false
-	dist := []string{fmt.Sprintf("len=%d", len(ops)/10*10)}
+	var settle *grant
+	if isTokenOp(op.Kind) && op.I < len(s.w.iuser) && op.Tok >= 0 && op.Tok < len(s.w.grants) &&
+		s.w.grants[op.Tok].unsure && s.w.grants[op.Tok].user == s.w.iuser[op.I] {
+		settle = s.w.grants[op.Tok]
+	}
 
-	for i, op := range ops {
-		// the reference verdict BEFORE the op: is the presented token a live token of this instance's own profile?
-		why := ""
+	o, calls := s.w.apply(op)
+	if s.w.ambig {
+		return false
+	}
 
-		if isTokenOp(op.Kind) && op.I < len(w.iuser) {
-			u := w.iuser[op.I]
+	if settle != nil && o.Out != "locked" {
+		settle.unsure = false
+		settle.closed = !admitted(o.Out)
+	}
 
-			switch {
-			case op.Tok < 0 || op.Tok >= len(w.grants):
-				why = "never-issued"
-			case w.grants[op.Tok].user != u:
-				why = "foreign"
-				g := w.grants[op.Tok]
+	s.obs = append(s.obs, o)
 
-				if g.closed {
-					why = "foreign-closed"
-				} else if w.now-g.last > g.ttl {
-					why = "foreign-expired"
-				}
-			case w.grants[op.Tok].closed:
-				why = "closed"
-			case w.now-w.grants[op.Tok].last > w.grants[op.Tok].ttl:
-				why = "expired"
+	if isTokenOp(op.Kind) && op.I < len(s.w.iuser) {
+		tokClass := why
+		if tokClass == "" {
+			tokClass = "own-live"
+		}
+
+		s.classParts = append(s.classParts, op.Kind+"/"+tokClass+"/"+o.Out)
+		s.dist = append(s.dist, "token="+tokClass, "probe="+op.Kind+"/"+tokClass+"->"+o.Out)
+
+		if why != "" {
+			s.nontrivial = true
+		}
+
+		u := s.w.iuser[op.I]
+
+		if admitted(o.Out) && why != "" {
+			s.fail(why+"-token-admitted:"+op.Kind, fmt.Sprintf("op %d %+v: instance of user %d admitted a %s token (result %s)",
+				s.n, op, u, why, o.Out))
+		}
+
+		if !admitted(o.Out) {
+			if t := touchedData(calls); len(t) > 0 {
+				s.fail("rejected-op-touched-storage:"+op.Kind, fmt.Sprintf("op %d %+v rejected (%s) but made storage calls %v", s.n, op, o.Out, t))
+			}
+
+			if !sameDump(&s.prev, &o) {
+				s.fail("rejected-op-changed-state:"+op.Kind, fmt.Sprintf("op %d %+v rejected (%s) but the stored state changed", s.n, op, o.Out))
 			}
 		}
 
-		o, calls := w.apply(op)
-		if w.ambig {
+		// isolation: whatever comes back through an instance of u was added through an instance of u
+		switch o.Out {
+		case "done":
+			if op.Kind == "add" {
+				s.w.addedBy[op.V] = u
+			}
+		case "val":
+			if s.w.addedBy[o.N] != u {
+				s.fail("content-crosses-profiles", fmt.Sprintf("op %d %+v: instance of user %d read a value added under user %d", s.n, op, u, s.w.addedBy[o.N]))
+			}
+		case "all":
+			for _, r := range o.All {
+				if s.w.addedBy[r[1]] != u {
+					s.fail("content-crosses-profiles", fmt.Sprintf("op %d %+v: instance of user %d listed a value added under user %d", s.n, op, u, s.w.addedBy[r[1]]))
+				}
+			}
+		case "key":
+			if o.N < len(o.Keys) && o.Keys[o.N] != u {
+				s.fail("key-under-other-profile", fmt.Sprintf("op %d %+v: key created through an instance of user %d is wrapped for user %d", s.n, op, u, o.Keys[o.N]))
+			}
+		}
+	} else {
+		s.classParts = append(s.classParts, op.Kind+"/"+o.Out)
+		s.dist = append(s.dist, "op="+op.Kind+"->"+o.Out)
+	}
+
+	// every stored row belongs to the profile that added it, after every op
+	for _, r := range o.Rows {
+		if by, ok := s.w.addedBy[r[2]]; !ok || by != r[0] {
+			s.fail("content-planted-in-other-profile", fmt.Sprintf("op %d %+v: store of user %d holds value %d added under user %d", s.n, op, r[0], r[2], by))
+		}
+	}
+
+	s.prev = o
+	s.n++
+
+	return true
+}
+
+// runOnce executes the history; ok=false when a timing bound was not met.
+func runOnce(kind string, ops []Op) (*hx.Record, bool) {
+	s := newSeqRun(kind)
+	defer s.w.cleanup()
+
+	s.rec.Case = map[string]interface{}{"ops": ops}
+	s.dist = []string{fmt.Sprintf("len=%d", len(ops)/10*10)}
+
+	for _, op := range ops {
+		if !s.do(op) {
 			return nil, false
 		}
-
-		obs = append(obs, o)
-
-		if isTokenOp(op.Kind) && op.I < len(w.iuser) {
-			tokClass := why
-			if tokClass == "" {
-				tokClass = "own-live"
-			}
-
-			classParts = append(classParts, op.Kind+"/"+tokClass+"/"+o.Out)
-			dist = append(dist, "token="+tokClass, "probe="+op.Kind+"/"+tokClass+"->"+o.Out)
-
-			if why != "" {
-				nontrivial = true
-			}
-
-			u := w.iuser[op.I]
-
-			if admitted(o.Out) && why != "" {
-				fail(why+"-token-admitted:"+op.Kind, fmt.Sprintf("op %d %+v: instance of user %d admitted a %s token (result %s)",
-					i, op, u, why, o.Out))
-			}
-
-			if !admitted(o.Out) {
-				if t := touchedData(calls); len(t) > 0 {
-					fail("rejected-op-touched-storage:"+op.Kind, fmt.Sprintf("op %d %+v rejected (%s) but made storage calls %v", i, op, o.Out, t))
-				}
-
-				if !sameDump(&prev, &o) {
-					fail("rejected-op-changed-state:"+op.Kind, fmt.Sprintf("op %d %+v rejected (%s) but the stored state changed", i, op, o.Out))
-				}
-			}
-
-			// isolation: whatever comes back through an instance of u was added through an instance of u
-			switch o.Out {
-			case "done":
-				if op.Kind == "add" {
-					w.addedBy[op.V] = u
-				}
-			case "val":
-				if w.addedBy[o.N] != u {
-					fail("content-crosses-profiles", fmt.Sprintf("op %d %+v: instance of user %d read a value added under user %d", i, op, u, w.addedBy[o.N]))
-				}
-			case "all":
-				for _, r := range o.All {
-					if w.addedBy[r[1]] != u {
-						fail("content-crosses-profiles", fmt.Sprintf("op %d %+v: instance of user %d listed a value added under user %d", i, op, u, w.addedBy[r[1]]))
-					}
-				}
-			case "key":
-				if o.N < len(o.Keys) && o.Keys[o.N] != u {
-					fail("key-under-other-profile", fmt.Sprintf("op %d %+v: key created through an instance of user %d is wrapped for user %d", i, op, u, o.Keys[o.N]))
-				}
-			}
-		} else {
-			classParts = append(classParts, op.Kind+"/"+o.Out)
-			dist = append(dist, "op="+op.Kind+"->"+o.Out)
-		}
-
-		// every stored row belongs to the profile that added it, after every op
-		for _, r := range o.Rows {
-			if by, ok := w.addedBy[r[2]]; !ok || by != r[0] {
-				fail("content-planted-in-other-profile", fmt.Sprintf("op %d %+v: store of user %d holds value %d added under user %d", i, op, r[0], r[2], by))
-			}
-		}
-
-		prev = o
 	}
 
-	rec.Coq = coqCase(ops, obs)
-	rec.Observed = obs
-	rec.Class = strings.Join(classParts, ",")
-	rec.Trivial = !nontrivial
-	rec.Dist = dist
+	s.rec.Coq = "Seq " + coqCase(ops, s.obs)
+	s.rec.Observed = s.obs
+	s.rec.Class = strings.Join(s.classParts, ",")
+	s.rec.Trivial = !s.nontrivial
+	s.rec.Dist = s.dist
 
-	if rec.Oracle == "fail" {
-		// keep the replay small
-		rec.Observed = obs
-	}
-
-	return rec, true
+	return s.rec, true
 }
 
 func runHistory(kind string, ops []Op) *hx.Record {
@@ -1023,6 +1054,34 @@ func enumerate(alpha []string, maxLen int, f func([]string)) {
 	rec(nil)
 }
 
+func loadConc(path string) (ConcCase, bool) {
+	b, err := os.ReadFile(path)
+	if err != nil {
+		return ConcCase{}, false
+	}
+
+	var c struct {
+		Case struct {
+			Conc *ConcCase `json:"conc"`
+		} `json:"case"`
+		Conc *ConcCase `json:"conc"`
+	}
+
+	if json.Unmarshal(b, &c) != nil {
+		return ConcCase{}, false
+	}
+
+	if c.Conc != nil {
+		return *c.Conc, true
+	}
+
+	if c.Case.Conc != nil {
+		return *c.Case.Conc, true
+	}
+
+	return ConcCase{}, false
+}
+
 func loadOps(path string) []Op {
 	b, err := os.ReadFile(path)
 	if err != nil {
@@ -1061,7 +1120,23 @@ func main() {
 	defer tr.Close()
 
 	if args.Replay != "" {
+		if cc, ok := loadConc(args.Replay); ok {
+			// an interleaving cannot be forced: repeat the round until the oracle fails (or give the last run)
+			var rec *hx.Record
+			for i := 0; i < 2000; i++ {
+				rec = runConc("replay", cc)
+				if rec.Oracle == "fail" {
+					break
+				}
+			}
+
+			tr.Put(rec)
+
+			return
+		}
+
 		tr.Put(runHistory("replay", loadOps(args.Replay)))
+
 		return
 	}
 
@@ -1164,6 +1239,9 @@ func main() {
 	for _, r := range out {
 		tr.Put(r)
 	}
+
+	// overlapping calls (several Open on one profile, Open vs Close, Open vs key operation)
+	concPhase(args, rng, tr)
 
 	// methods outside the model: direct oracle only
 	nAttack := 10
